@@ -608,7 +608,11 @@ class QuorumSensing:
         abstain_votes: list[Vote]
     ) -> QuorumResult:
         """Fixed threshold count (e.g., need exactly N permits)."""
-        threshold = int(self.custom_threshold or len(self.colony) // 2 + 1)
+        threshold = self.custom_threshold or len(self.colony) // 2 + 1
+        if 0 < threshold < 1:
+            # Fractional thresholds are a share of the colony, never zero voters
+            threshold = max(1, math.ceil(threshold * len(self.colony)))
+        threshold = int(threshold)
 
         reached = len(permit_votes) >= threshold
         decision = VoteType.PERMIT if reached else VoteType.BLOCK
